@@ -19,6 +19,7 @@ let show_names (l : ReentrancyModel.vnames list) : string =
       Printf.sprintf "(%s %s %s %s)" (if node then "node" else "help") (hex name) (opt_hex bin) (opt_hex disp)) l)
 
 exception Panicked
+exception Stop
 
 let op_of (s : Sx.t) : ReentrancyModel.op =
   let open ReentrancyModel in
@@ -32,9 +33,10 @@ let op_of (s : Sx.t) : ReentrancyModel.op =
   | "sugg" -> SuggBuild (Stdlib.List.map bs (Sx.args s))
   | x -> failwith ("op " ^ x)
 
-let check_outcome (o : Parser.outcome) = match o with
-  | Parser.OPanicked _ -> raise Panicked
-  | _ -> ()
+let is_panic (o : Parser.outcome) = match o with
+  | Parser.OPanicked _ -> true
+  | _ -> false
+let show_out (o : Parser.outcome) = if is_panic o then "PANIC" else show_outcome o
 
 let run_hist (a : Sx.t list) : string =
   match a with
@@ -45,27 +47,39 @@ let run_hist (a : Sx.t list) : string =
       let buf = Buffer.create 1024 in
       Buffer.add_string buf "steps";
       let cur = ref c in
+      let panicked = ref false in
       (try
         Stdlib.List.iter (fun osx ->
           let o = op_of osx in
           let (c', ob) = ReentrancyModel.step !cur o in
+          (match ob with
+           | ReentrancyModel.OParse (out, _) when is_panic out ->
+             (* the same call on a fresh definition *)
+             let fresh_panics = (match ReentrancyModel.step c o with
+                 | (_, ReentrancyModel.OParse (out', _)) -> is_panic out'
+                 | _ -> false) in
+             Buffer.add_string buf (Printf.sprintf " (%s (PANIC %s) (n x - - ()))" (Sx.head osx) (if fresh_panics then "PANIC" else "fine"));
+             panicked := true;
+             raise Stop
+           | _ -> ());
           cur := c';
           let obs = match ob with
-            | ReentrancyModel.OParse (out, names) -> check_outcome out; show_outcome out ^ " names " ^ show_names names
+            | ReentrancyModel.OParse (out, names) -> show_outcome out ^ " names " ^ show_names names
             | ReentrancyModel.ORender (_, _, _) -> "r"
             | ReentrancyModel.OUnit -> "unit" in
-          Buffer.add_string buf (Printf.sprintf " (%s (%s) %s)" (Sx.head osx) obs (show_state c'))) (Sx.args ops);
-        let fin (c : Cmd.cmd) =
-          let ((out, tr), c') = ReentrancyModel.parse_mut c argv in
-          check_outcome out;
-          (show_outcome out ^ " names " ^ show_names (Stdlib.List.map ReentrancyModel.visit_names tr), c') in
-        let (reused, end_c) = fin !cur in
-        let (fresh, fresh_c) = fin c in
-        let (built, _) = fin (ReentrancyModel.build_op c) in
-        Buffer.add_string buf (Printf.sprintf " final (reused %s) (fresh %s) (fresh2 %s) (cloned %s) (built %s) (byval %s) (end %s) (freshend %s)"
-          reused fresh fresh fresh built fresh (show_state end_c) (show_state fresh_c));
-        Buffer.contents buf
-      with Panicked -> "PANIC")
+          Buffer.add_string buf (Printf.sprintf " (%s (%s) %s)" (Sx.head osx) obs (show_state c'))) (Sx.args ops)
+      with Stop -> ());
+      if !panicked then cur := c;
+      let fin (c : Cmd.cmd) =
+        let ((out, tr), c') = ReentrancyModel.parse_mut c argv in
+        if is_panic out then ("PANIC", c)
+        else (show_outcome out ^ " names " ^ show_names (Stdlib.List.map ReentrancyModel.visit_names tr), c') in
+      let (reused, end_c) = fin !cur in
+      let (fresh, fresh_c) = fin c in
+      let (built, _) = fin (ReentrancyModel.build_op c) in
+      Buffer.add_string buf (Printf.sprintf " final (reused %s) (fresh %s) (fresh2 %s) (cloned %s) (built %s) (byval %s) (end %s) (freshend %s)"
+        reused fresh fresh fresh built fresh (show_state end_c) (show_state fresh_c));
+      Buffer.contents buf
     end
   | _ -> "badcase"
 
